@@ -674,7 +674,7 @@ def all_ready():
             except Exception as e:
                 print("cannot import %s: %s" % (pid, e), file=sys.stderr)
                 continue
-            if getattr(m, "READY", True):
+            if getattr(m, "READY", False):
                 ids.append(pid)
     return ids
 
